@@ -10,6 +10,14 @@ def _parse(case):
     return es, f[3]
 
 
+def _second(case):
+    f = case.split()
+    for i in range(4, len(f) - 1, 2):
+        if f[i] == "Q":
+            return f[i + 1]
+    return None
+
+
 def _extras(case):
     """the optional `R <hex>` / `L <paths>` part of a case, as (root, links)"""
     f = case.split()
@@ -19,6 +27,7 @@ def _extras(case):
             root = f[i + 1]
         elif f[i] == "L":
             links = f[i + 1].split(",")
+
     return root, links
 
 
@@ -34,7 +43,7 @@ class Glob(Engine):
         # SET: the same, sorted and duplicate-free; directories included
         # LEG: doublestar.GlobWalk called directly with a callback answering SkipDir for hidden paths, against the walk
         #      model with the same callback (validates the modelled SkipDir behaviours on every run)
-        return ["SET", "SEQ", "LEG"]
+        return ["SET", "SEQ", "LEG", "SETQ"]
 
     def shrink_candidates(self, case):
         """drop entries of the tree (halves first, then single entries), then shorten paths, then drop pattern segments"""
@@ -43,9 +52,10 @@ class Glob(Engine):
             return []
         es, pat = p
         root, links = _extras(case)
+        q = _second(case)
         out = []
 
-        def emit(es2, pat2, root2=root, links2=links):
+        def emit(es2, pat2, root2=root, links2=links, q2=q):
             # a link survives only while its entry (or something below it) is still in the tree
             have = set()
             for e in es2:
@@ -53,12 +63,14 @@ class Glob(Engine):
                 for j in range(1, len(parts) + 1):
                     have.add("/".join(parts[:j]))
             ls = [l for l in links2 if l in have]
-            c = _mk(es2, pat2) + ((" R " + root2) if root2 else "") + ((" L " + ",".join(ls)) if ls else "")
+            c = _mk(es2, pat2) + ((" R " + root2) if root2 else "") + ((" L " + ",".join(ls)) if ls else "") + ((" Q " + q2) if q2 else "")
             if c != case and c not in out:
                 out.append(c)
 
         if root:
             emit(es, pat, root2=None)
+        if q:
+            emit(es, pat, q2=None)
         for i in range(len(links)):
             emit(es, pat, links2=links[:i] + links[i + 1:])
 
@@ -121,6 +133,8 @@ class Glob(Engine):
             out.append("project-directory:unusual-name")
         if links:
             out.append("tree:symbolic-links")
+        if _second(rec[0]):
+            out.append("second-pattern-in-the-same-spokfile")
         return out
 
     def rule(self, prop):
